@@ -10,6 +10,7 @@
 From EoNV Require Import Prelude Samp Graph ListDict ListDictP Gillespie KldP GillespieInv SampP Simple SimpleP
   SimpleExecS SimpleExec SimpleExecLog SimpleExecTop SimpleExecChk SimpleExecC10.
 From EoNV Require Import Investigation InvestigationP.
+From EoNV Require Complex ComplexP ComplexExec ComplexExecChk ComplexExecC10.
 
 Theorem C10gen_summary_equals_arrays :
   forall g (Hg : wfg2 g) ic rstat tmin tmax sortable spont induced fuel ds out tr,
@@ -60,6 +61,29 @@ Theorem C10gen_histories_make_spec_moves :
   forall u t0, legalb (moves_of H J) ((t0, st u) :: map pe (filter (of_node u) (map ev3 evs))) = true.
 Proof. exact glog_legalb. Qed.
 
+(* ---- Gillespie_complex_contagion: the same, for every user model inside C15's domain whose
+   chooser only answers return statuses: histories = per-node projections of one log, rows = its
+   running counts, hence summary() = arrays when no two events share an instant ---- *)
+Theorem C10gen_complex_summary_equals_arrays :
+  forall g rate choice infl rstats tmin tmax,
+  NoDup (gnodes g) -> (forall st u, 0 <= rate st u) ->
+  (forall st u v, In u (gnodes g) -> In v (infl st u) -> In v (gnodes g)) ->
+  ComplexP.influence_covers g rate infl ->
+  (forall st u, In (choice st u) rstats) ->
+  forall (ic : node -> option N) fuel ds out tr,
+  (forall u, In u (gnodes g) -> ic u <> None) ->
+  exec (Complex.complex g rate choice infl rstats tmin tmax true ic fuel) ds [] = (Ok out, tr) ->
+  let st0 := fun u => match ic u with Some s => s | None => 0%N end in
+  exists (evs : list (Q * node)) (fd : fulldata),
+    let log := ComplexExec.ev_elog choice st0 evs in
+    so_full (fst out) = Some fd /\
+    fd_hist fd = iv_hist (log_inv (gnodes g) rstats tmin st0 log) /\
+    so_rows (fst out) = log_arrays (gnodes g) rstats tmin st0 log /\
+    (gnodes g <> [] -> (forall u, In u (gnodes g) -> In (st0 u) rstats) -> increasing tmin log = true ->
+       summary (mkInv (gnodes g) (fd_hist fd) None (Some rstats)) None = Ok (so_rows (fst out)) /\
+       consistent_b (mkInv (gnodes g) (fd_hist fd) None (Some rstats)) (so_rows (fst out)) tmin (ComplexExecChk.all_moves rstats) = true).
+Proof. exact ComplexExecC10.complex_summary_equals_arrays. Qed.
+
 (* non-vacuity: the example run of Props/C03.v (return_statuses = both statuses, covering);
    summary() of its histories is its rows, and consistent_b rejects the histories against rows
    with one count changed *)
@@ -88,4 +112,5 @@ Print Assumptions C10gen_summary_equals_arrays.
 Print Assumptions C10gen_rows_are_running_counts_in_both_modes.
 Print Assumptions C10gen_rows_checker_sound.
 Print Assumptions C10gen_histories_make_spec_moves.
+Print Assumptions C10gen_complex_summary_equals_arrays.
 Print Assumptions C10gen_example.
